@@ -4,6 +4,7 @@ import (
 	"fmt"
 	"go/token"
 	"go/types"
+	"strings"
 
 	"golang.org/x/tools/go/ssa"
 
@@ -305,4 +306,156 @@ func c08ListenerOwnVariables(c *Ctx) {
 		}
 	}
 	c.Floor("goroutine-own-variables", 2, "per-socket goroutines of the socket listener (tcp accept, udp receive)")
+}
+
+// c08DetectorPresence: the selector tells "has no payload detector" from "has one" by asserting the configured service
+// value to services.CanHandlerer. That only means what the property says if the value is the service itself:
+// (a) the registry stores the registered constructor, not a closure around it; (b) the dispatcher's service table holds
+// what the constructor returned; (c) no type that wraps a Servicer (embeds the interface) has a CanHandle method of its
+// own – such a wrapper has a detector whatever it wraps, so a detector-less service is no longer taken without peeking
+// and is skipped or chosen by the wrapper's answer instead of its position.
+func c08DetectorPresence(c *Ctx) {
+	p := c.P
+	const rule = "detector-presence-preserved"
+	servicer := p.Iface("services", "Servicer")
+	canH := p.Iface("services", "CanHandlerer")
+	if !c.Anchor(servicer != nil && canH != nil, rule, "services.Servicer and services.CanHandlerer") {
+		return
+	}
+	// (a) stores into the registry map
+	na := 0
+	for _, fn := range p.FuncsIn("services") {
+		if PkgOf(fn) != ModPath+"/services" {
+			continue
+		}
+		for _, b := range fn.Blocks {
+			for _, in := range b.Instrs {
+				mu, ok := in.(*ssa.MapUpdate)
+				if !ok {
+					continue
+				}
+				ld, ok := mu.Map.(*ssa.UnOp)
+				if !ok {
+					continue
+				}
+				g, ok := ld.X.(*ssa.Global)
+				if !ok {
+					continue
+				}
+				mt, ok := g.Type().(*types.Pointer).Elem().Underlying().(*types.Map)
+				if !ok {
+					continue
+				}
+				sig, ok := mt.Elem().Underlying().(*types.Signature)
+				if !ok || sig.Results().Len() != 1 || !types.Identical(sig.Results().At(0).Type().Underlying(), servicer) {
+					continue
+				}
+				na++
+				v := Unwrap(mu.Value)
+				_, isParam := v.(*ssa.Parameter)
+				_, isFunc := v.(*ssa.Function)
+				if mc, isMC := v.(*ssa.MakeClosure); isMC {
+					// a closure that returns exactly what the registered constructor returns
+					if cf, _ := mc.Fn.(*ssa.Function); cf != nil && cf.Blocks != nil {
+						all := len(Returns(cf)) > 0
+						for _, r := range Returns(cf) {
+							for _, lf := range leaves(RetVals(r)[0]) {
+								call, isCall := lf.(*ssa.Call)
+								if !isCall || call.Call.IsInvoke() {
+									all = false
+									continue
+								}
+								fv, isFV := Deref(call.Call.Value).(*ssa.FreeVar)
+								if !isFV {
+									all = false
+									continue
+								}
+								b := freeVarBinding(fv)
+								if _, bp := Unwrap(Deref(b)).(*ssa.Parameter); b == nil || !bp {
+									all = false
+								}
+							}
+						}
+						if all {
+							isFunc = true
+						}
+					}
+				}
+				c.Check(isParam || isFunc, rule, shortFn(fn)+" stores into "+g.Name(), p.InstrPos(mu), "the registry keeps the registered constructor itself",
+					"the service registry stores "+RenderN(v, 3)+" instead of the registered constructor: what services.Get hands out is no longer the service's own value, so its optional CanHandle (or the absence of one) is hidden behind whatever this wrapper's method set says")
+			}
+		}
+	}
+	c.Check(na >= 1, rule, "registry stores found", "-", fmt.Sprint(na), "no store into the service registry map found")
+	// (b) the dispatcher's table: ServiceMap.Service = <constructor obtained from services.Get>(options...)
+	smT := p.Type("server", "ServiceMap")
+	nb := 0
+	if c.Anchor(smT != nil, rule, "server.ServiceMap") {
+		for _, fn := range p.FuncsIn("server") {
+			for _, b := range fn.Blocks {
+				for _, in := range b.Instrs {
+					st, ok := in.(*ssa.Store)
+					if !ok {
+						continue
+					}
+					fa, ok := st.Addr.(*ssa.FieldAddr)
+					if !ok || NamedOf(fa.X.Type()) != smT || !types.Identical(fa.Type().(*types.Pointer).Elem().Underlying(), servicer) {
+						continue
+					}
+					if strings.HasSuffix(p.Fset.Position(fn.Pos()).Filename, "_test.go") {
+						continue
+					}
+					nb++
+					good := true
+					why := ""
+					for _, lf := range leaves(st.Val) {
+						call, isCall := lf.(*ssa.Call)
+						if !isCall || call.Call.IsInvoke() {
+							good, why = false, RenderN(lf, 3)
+							continue
+						}
+						okSrc := false
+						for _, s2 := range leaves(call.Call.Value) {
+							if ex, isEx := s2.(*ssa.Extract); isEx && ex.Index == 0 {
+								if gc, isC := ex.Tuple.(*ssa.Call); isC && FuncIs(gc.Call.StaticCallee(), ModPath+"/services", "Get") {
+									okSrc = true
+								}
+							}
+							if f, isF := s2.(*ssa.Function); isF && InRepo(f) && PkgOf(f) == ModPath+"/services" {
+								okSrc = true
+							}
+						}
+						if !okSrc {
+							good, why = false, "the result of "+RenderN(call.Call.Value, 3)
+						}
+					}
+					c.Check(good, rule, shortFn(fn)+" fills ServiceMap.Service", p.InstrPos(st), "the value the registered constructor returned",
+						"the dispatcher's service table holds "+why+" rather than what the registered constructor returned: the selector's CanHandlerer assertion no longer tells whether the configured service has a detector")
+				}
+			}
+		}
+		c.Check(nb >= 1, rule, "service table stores found", "-", fmt.Sprint(nb), "no store into ServiceMap.Service found")
+	}
+	// (c) wrapper types
+	nc := 0
+	for _, n := range p.NamedTypes() {
+		st, ok := n.Underlying().(*types.Struct)
+		if !ok {
+			continue
+		}
+		wraps := false
+		for i := 0; i < st.NumFields(); i++ {
+			f := st.Field(i)
+			if it, isI := f.Type().Underlying().(*types.Interface); isI && f.Embedded() && types.Implements(f.Type(), servicer) && it.NumMethods() > 0 {
+				wraps = true
+			}
+		}
+		if !wraps {
+			continue
+		}
+		nc++
+		c.Check(!Implements(n, canH), rule, "wrapper type "+TypeKey(n), p.Pos(n.Obj().Pos()), "a Servicer wrapper without a CanHandle of its own",
+			"type "+TypeKey(n)+" wraps a Servicer (embedded interface) and has a CanHandle method: it has a payload detector whatever it wraps, so a wrapped service without one is no longer selected as \"has no detector\" (without peeking, by its position) but by the wrapper's answer")
+	}
+	c.Ok(rule, "wrapper types scanned", "-", fmt.Sprintf("%d struct types embed a Servicer interface", nc))
 }
